@@ -44,6 +44,7 @@ STATEMENTS = [
     (None, None, ["print", " ", "*", ",", "'x'", ",", "1.0e-3"]),
     (None, None, ["msg", "=", "'alpha   beta  '"]),
     (None, None, ["w", "=", "\"two  ''  kinds\"", "//", "'  x'"]),
+    (None, None, ["y", "=", "f", "(", "'p q'", ",", "'p q'", ",", "1.0e3", ",", "1.0e3", ")"]),          # the same literal twice inside one bracket
     (30, None, ["nm", "=", "'Hello'", "//", "\"ABC_1\"", "//", "'MiXed Case'"]),       # literals that are single words keep their letter case
 ]
 COMMENTS = ["! note", "!", "! it's \"odd\" & strange ! really"]
@@ -193,7 +194,7 @@ def main(argv):
             if len(samples) < 2 and len(lines) > 2:
                 samples.append(dict(source=src, items=items))
     # ---------------------------------------------------------------- ';' joins with trailing comments (C04, C11)
-    for a, b in itertools.permutations(STATEMENTS[:5] + STATEMENTS[-1:], 2):
+    for a, b in itertools.permutations(STATEMENTS[:5] + STATEMENTS[-2:], 2):
         for sep in (";", " ; ", ";  "):
             for tail in ("", " ! trailing"):
                 src = head(a) + tokens_text(a[2]) + sep + head(b, "", (len(sep) + len(tail)) % 4) + tokens_text(b[2]) + tail + "\n" + "z = 0\n"
@@ -291,6 +292,23 @@ def main(argv):
             on = [(i[0], i[1]) for i in read_items(src, ignore_comments=False, include_omp_conditional_lines=True)]
             if on != [("comment", d), ("stmt", "x=1")]:
                 fail("reader#omp.directive_stays_comment", dict(source=src), dict(items=on))
+        # fixed form: sentinel lines that follow comment lines, directive comments or blank lines (which the reader skips
+        # in one go when comments are ignored), with every sentinel spelling, and a continuation after such lines
+        from fparser.common.sourceinfo import FortranFormat as _FF15
+        from fparser.common.readfortran import FortranStringReader as _FSR15
+        fsrc = ("      i = 0\nC comment\n!$    k = 1\n\nc another\n*$    m = 2\n!$omp barrier\nc$   &  + 3\n* more\n\nC$    n = 4\n      z = 0\n")
+        for on in (True, False):
+            for ic in (True, False):
+                cases += 1
+                try:
+                    rd = _FSR15(fsrc, ignore_comments=ic, include_omp_conditional_lines=on)
+                    rd.set_format(_FF15(False, False))
+                    got = ["".join(it.line.split()) for it in rd if type(it).__name__ == "Line"]
+                except BaseException as e:  # noqa
+                    got = ["%s: %s" % (type(e).__name__, str(e)[:100])]
+                want = ["i=0", "k=1", "m=2+3", "n=4", "z=0"] if on else ["i=0", "z=0"]
+                if got != want:
+                    fail("reader#omp.fixed_sentinels_after_skipped_lines", dict(source=fsrc, enabled=on, ignore_comments=ic), dict(items=got, expected=want))
         # the option holds for every line the reader delivers: sentinel lines inside an included file too
         import tempfile
         from fparser.common.readfortran import FortranFileReader, FortranStringReader
